@@ -53,7 +53,7 @@ MODPATH="$(cd "$S/repo" && $GO list -m 2>/dev/null | head -1)"
 
 NOOPEN=""
 [ "${VERIF_NO_OPEN_SEAM:-0}" = 1 ] && NOOPEN="-noopen"
-"$HERE/../bin/simrewrite" -dir "$S/repo" -out "$S/sites-repo.json" -base 0 -openpkgs "$MODPATH" $NOOPEN \
+"$HERE/../bin/simrewrite" -dir "$S/repo" -out "$S/sites-repo.json" -base 0 -goall -openpkgs "$MODPATH" $NOOPEN \
    || fail "simrewrite failed on the repo copy"
 if [ $HAVE_CHARDET = 1 ]; then
   "$HERE/../bin/simrewrite" -dir "$S/chardet" -out "$S/sites-chardet.json" -base 100000 -yields=false -maps=false -blocking=false \
